@@ -15,9 +15,14 @@
      ears|rars   <0|1>
      ecpr|rcpr   x<offer> x<nat> x<fingerprint>
      ecps|rcps   x<answer> x<error>
-   results: decoders/round trips "ok <fields>" | "err"; encoders the canonical value. *)
+     vsplit x<s>                         strings.Split(s, ".")          -> comma list of x<piece>
+     nsplit x<data>                      bytes.SplitN(data, "\n", 2)    -> comma list of x<piece>
+   results: decoders/round trips "ok <fields>" | "err"; encoders the canonical value.
+   The d* ops execute the decoders of Model/MessagesPanic.v (every partial operation of the Go code an
+   explicit step; proved equal to the decoders of Model/Messages.v): a step that panics prints
+   "!panic <why>", which no answer of the implementation other than a panic can equal. *)
 From Coq Require Import List NArith ZArith Bool Arith String.
-From Snow Require Import Lib.Wire Model.JsonBoundary Model.Messages.
+From Snow Require Import Lib.Wire Model.JsonBoundary Model.Messages Model.MessagesPanic.
 Import ListNotations.
 Open Scope N_scope.
 
@@ -130,6 +135,14 @@ Definition X (b : bytes) : bytes := 120 :: hex_encode b.
 Definition out {A} (p : A -> bytes) (r : result A) : bytes :=
   match r with Ok a => bs "ok " ++ p a | Err => bs "err" end.
 
+Definition out_g {A} (p : A -> bytes) (r : dres A) : bytes :=
+  match r with
+  | DVal r => out p r
+  | DPanic WIndex => bs "!panic index"
+  | DPanic WNilDeref => bs "!panic nil-deref"
+  | DPanic WShape => bs "!panic shape"
+  end.
+
 Definition p_poll_req (r : poll_req) : bytes :=
   X (pq_sid r) ++ [SP] ++ X (pq_type r) ++ [SP] ++ X (pq_nat r) ++ [SP] ++ zdec_print (pq_clients r)
     ++ [SP] ++ X (pq_pattern r) ++ [SP] ++ bool_print (pq_aware r).
@@ -147,13 +160,13 @@ Definition run (args : list bytes) : bytes :=
   | [op; d; j] =>
       match payload_parse d, jv_parse j with
       | Some _, Some o =>
-          if beq op (bs "dppr") then out p_poll_req (opt_decode decode_proxy_poll o)
-          else if beq op (bs "dppr0") then out p_poll_req0 (opt_decode decode_proxy_poll_legacy o)
-          else if beq op (bs "dpr") then out p3 (opt_decode decode_poll_response o)
-          else if beq op (bs "dpr0") then out p2 (opt_decode decode_poll_response_legacy o)
-          else if beq op (bs "dar") then out p2 (opt_decode decode_answer_request o)
-          else if beq op (bs "dars") then out bool_print (opt_decode decode_answer_response o)
-          else if beq op (bs "dcps") then out p2 (opt_decode decode_client_response o)
+          if beq op (bs "dppr") then out_g p_poll_req (opt_decode_g decode_proxy_poll_code o)
+          else if beq op (bs "dppr0") then out_g p_poll_req0 (opt_decode_g decode_proxy_poll_legacy_code o)
+          else if beq op (bs "dpr") then out_g p3 (opt_decode_g decode_poll_response_g o)
+          else if beq op (bs "dpr0") then out_g p2 (opt_decode_g decode_poll_response_legacy_g o)
+          else if beq op (bs "dar") then out_g p2 (opt_decode_g decode_answer_request_code o)
+          else if beq op (bs "dars") then out_g bool_print (opt_decode_g decode_answer_response_g o)
+          else if beq op (bs "dcps") then out_g p2 (opt_decode_g decode_client_response_g o)
           else ERR_BADCASE
       | _, _ =>
           match payload_parse d, payload_parse j with
@@ -167,6 +180,11 @@ Definition run (args : list bytes) : bytes :=
           end
       end
   | [op; a] =>
+      if beq op (bs "vsplit") then
+        match payload_parse a with Some s => list_print (map X (split_dot s)) | None => ERR_BADCASE end
+      else if beq op (bs "nsplit") then
+        match payload_parse a with Some d => list_print (map X (splitn_nl d)) | None => ERR_BADCASE end
+      else
       match bool_parse a with
       | Some b => if beq op (bs "ears") then jprint_sorted (encode_answer_response b)
                   else if beq op (bs "rars") then out bool_print (decode_answer_response (encode_answer_response b))
@@ -182,7 +200,7 @@ Definition run (args : list bytes) : bytes :=
                            | None => beq b (bs "-")
                            | Some (_, body) => match payload_parse b with Some b' => beq b' body | None => false end
                            end in
-            if body_ok then out p3 (decode_client_poll (fun _ => o) data) else ERR_BADCASE
+            if body_ok then out_g p3 (decode_client_poll_code (fun _ => o) data) else ERR_BADCASE
         | _, _ => ERR_BADCASE
         end
       else if beq op (bs "epr0") || beq op (bs "rpr0") then
